@@ -11,13 +11,14 @@ CONSTANTS WP, WD, WU
 VARIABLE w
 simvars == <<vars, w>>
 
-Proto == StateCmd \/ StateLast \/ StateDecide \/ StreamCmd \/ StreamDecide \/ JoinCmd \/ TransRead \/ TransFinish \/ Snapshot \/ Resub
+Proto == StateCmd \/ StateLast \/ StateDecide \/ StreamCmd \/ StreamDecide \/ JoinCmd \/ TransRead \/ TransFinish \/ TransStop \/ Snapshot \/ Resub
 Env   == \/ \E k \in Keys : RemoveKey(k) \/ KeyExpiry(k)
          \/ StreamExpiry \/ Clear
          \/ \E c \in BOOLEAN : SubRefresh(c)
 
-SimNext == \/ \E s \in 1..WP : Proto /\ w' = s
-           \/ \E s \in 1..WD : Deliver /\ w' = s
+SimNext == IF Unblocking THEN Unblock /\ w' = 0 ELSE
+           \/ \E s \in 1..WP : Proto /\ w' = s
+           \/ \E s \in 1..WD : (Deliver \/ DeliverBlocked) /\ w' = s
            \/ \E s \in 1..2 : PosCheck /\ w' = s
            \/ \E s \in 1..WU, k \in Keys : Publish(k) /\ w' = s
            \/ Env /\ w' = 0
